@@ -86,6 +86,23 @@ int main(int argc, char **argv) {
             }
             vh_seg++; vh_step = 0;
             mark = vh_ledger_mark();
+            if (inj_at || inj_from) {
+                /* constructor under allocation failure: NULL and nothing left allocated, or a working object */
+                for (long ck = 1; ck <= 16; ck++) {
+                    long m0 = vh_ledger_mark();
+                    vh_where = "ctor";
+                    vh_call_begin();
+                    if (inj_at) vh_fail_at = ck; else vh_fail_from = ck;
+                    V = qvector((size_t) initcap, OBJ, opt);
+                    long nf = vh_failed;
+                    vh_call_end();
+                    int cok = V != NULL;
+                    if (V) { V->free(V); V = NULL; }
+                    vh_emit("{\"op\":\"ctor\",\"i\":0,\"v\":0,\"inj\":%ld,\"nfail\":%ld,\"ok\":%s,\"live\":%ld}", ck, nf, vh_bool(cok), vh_live_since(m0));
+                    if (nf == 0) break;
+                }
+            }
+
             V = qvector((size_t) initcap, OBJ, opt);
             if (!V) return 2;
             vh_emit("{\"op\":\"reset\",\"i\":0,\"v\":0,\"cap\":%d}", initcap);
@@ -96,6 +113,7 @@ int main(int argc, char **argv) {
         vh_where = op;
         int inject = (inj_at || inj_from) && is_alloc_op(op);
         for (long k = 1;; k++) {
+            if (inject && k > 300) inject = 0;      /* give up injecting: finish the operation normally */
             unsigned char *arg = vh_malloc(OBJ);
             mk(arg, v);
             int ok = 1, rv = 0; void *p = NULL; size_t asz = 0; void *arr = NULL;
@@ -163,7 +181,7 @@ int main(int argc, char **argv) {
             vh_bprintf(&b, "],\"cap\":%zu,\"lkd\":%ld,\"ovl\":%ld,\"bf\":%ld}", V->max, (vh_locks - vh_unlocks) - lkb,
                        vh_overlap_copies - ovb, vh_badfree - bfb);
             vh_bflush(&b);
-            if (!inject || nfail == 0 || ok || k > 64) break;     /* completed (normally or despite the failure) */
+            if (!inject || nfail == 0 || ok ) break;     /* completed (normally or despite the failure) */
         }
     }
     if (V) {
